@@ -180,24 +180,28 @@ func enumCell(r spg.CharRecipe, ref *refLeaf, maxLeaves int) (*cellResult, error
 	}
 	ev.Leaves(int64(leaves))
 	if err == enum.ErrTooBig {
-		err = &ev.Inc{Why: "attempt tree larger than the reference predicts (leaf budget exceeded)"}
+		ev.Class("tree_beyond_leaf_budget_not_judged")
+		err = &ev.Skip{Why: "attempt tree beyond the leaf budget"}
 	}
 	return res, err
 }
 
-// chainCheck: under the real budget, behind the choices of the given rejected
+// chainCheck: with retries allowed, behind the choices of the given rejected
 // attempts, every attempt of the enumerated tree has exactly its single-attempt
 // outcome - an accepted one is returned as is; a rejected one is followed by a
-// complete, fresh attempt (the reference), or by an error if it was the last
-// permitted. It returns the number of runs made.
+// complete, fresh attempt (the reference). The budget is set far above the
+// number of attempts chained, so that where exactly it ends (C13's business)
+// plays no part. It returns the number of runs made.
 func chainCheck(r spg.CharRecipe, cell *cellResult, rejected [][]uint32) (int, error) {
+	oT := spg.MaxTrials
+	spg.MaxTrials = 100000
+	defer func() { spg.MaxTrials = oT }()
 	ref := cell.Ref
 	var prefix []uint32
 	for _, v := range rejected {
 		prefix = append(prefix, v...)
 	}
 	P := len(prefix)
-	last := len(rejected) == spg.MaxTrials-1
 	runs := 0
 	for _, lf := range cell.All {
 		ch := append(append([]uint32{}, prefix...), lf.Vec...)
@@ -214,28 +218,20 @@ func chainCheck(r spg.CharRecipe, cell *cellResult, rejected [][]uint32) (int, e
 			got = o.Pw.String()
 		}
 		nd := len(o.S.Draws)
-		switch {
-		case lf.Acc:
+		if lf.Acc {
 			if got != lf.Out {
 				return runs, fmt.Errorf("behind %d rejected attempts the draws %v produced %q, but the same draws produce %q on a fresh start: a retry is not a complete, independent redraw", len(rejected), lf.Vec, got, lf.Out)
 			}
 			if nd != len(ch) {
 				return runs, fmt.Errorf("behind %d rejected attempts (%d draws) an accepted attempt of %d draws was returned after %d draws", len(rejected), P, len(lf.Vec), nd)
 			}
-		case last:
-			if o.Pw != nil || o.Err == nil {
-				return runs, fmt.Errorf("attempt %d of %d permitted was rejected and Generate still returned %q", len(rejected)+1, spg.MaxTrials, got)
-			}
-			if nd != len(ch) {
-				return runs, fmt.Errorf("the last permitted attempt failed after %d draws in all, but Generate made %d draws: more attempts than permitted", len(ch), nd)
-			}
-		default:
-			if got != ref.Out {
-				return runs, fmt.Errorf("after a rejected attempt (draws %v, behind %d others) the next attempt's draws %v produced %q, but the same draws produce %q on a fresh start: a retry is not a complete redraw", lf.Vec, len(rejected), ref.Choices, got, ref.Out)
-			}
-			if nd != len(ch)+ref.D {
-				return runs, fmt.Errorf("a rejected attempt was followed by %d further draws before success (a complete fresh attempt takes %d)", nd-len(ch), ref.D)
-			}
+			continue
+		}
+		if got != ref.Out {
+			return runs, fmt.Errorf("after a rejected attempt (draws %v, behind %d others) the next attempt's draws %v produced %q, but the same draws produce %q on a fresh start: a retry is not a complete redraw", lf.Vec, len(rejected), ref.Choices, got, ref.Out)
+		}
+		if nd != len(ch)+ref.D {
+			return runs, fmt.Errorf("a rejected attempt was followed by %d further draws before success (a complete fresh attempt takes %d)", nd-len(ch), ref.D)
 		}
 	}
 	ev.Leaves(int64(runs))
